@@ -108,6 +108,15 @@ def generate(rng, tier):
                 # of such a resample can be undefined (all NaN): cv_noise_ceiling then raises (note F37); correlation is exercised
                 # through bootstrap_crossval and the other routines
                 c['method'] = rng.choice(['cosine', 'rho-a'])
+            if rng.random() < 0.4:
+                # few conditions: some resamples have fewer than three distinct conditions, are marked NaN and must not count in
+                # the covariances (seeded change C04-m10)
+                c['n_cond'] = nc = 5
+                P = nc * (nc - 1) // 2
+                c['data8'] = [[rng.randint(1, 40) for _ in range(P)] for _ in range(max(nr, 3))]
+                c['models'] = gen_models(rng, P)
+                c['k_pattern'] = 1
+                c['N'] = rng.randint(9, 12)
             if c['k_pattern'] == 1 and c['k_rdm'] == 1:
                 c['n_cv'] = 1                  # the routine itself forces one repetition without correction then
         else:
